@@ -15,6 +15,7 @@ Open Scope N_scope.
 
 Inductive instr :=
   | Do (l : lab)
+  | Not (l : lab)                          (* l must be DISABLED here (a goroutine observed waiting) *)
   | Run (k : N) (fills : list bool)        (* at most k scheduler steps *)
   | RunQ (fills : list bool).              (* scheduler steps until nothing is enabled (<= mu) *)
 
@@ -86,6 +87,11 @@ Fixpoint interp (strict : bool) (c : cfg) (p : list instr) (s : st) (tg : N) : o
       match step strict c s l with
       | Some s' => interp strict c r s' (N.lor tg (tags_of c s s' l))
       | None => None
+      end
+  | Not l :: r =>
+      match step strict c s l with
+      | Some _ => None
+      | None => interp strict c r s tg
       end
   | Run k fills :: r =>
       let '(s', tg', _) := run_f strict c (N.to_nat k) fills [] s tg in interp strict c r s' tg'
